@@ -236,6 +236,15 @@ def nextWalId (ws : List Wal) : Nat :=
     | some w => w.num + 1
     | none => 0
 
+/-- a compaction's change set removes table OBJECTS: one entry of the level list per listed URI (a composite
+checkpoint may list a table once per handle, and a compaction may take only one of the twins) -/
+def dropOne (cur : List Tbl) (u : Path) : List Tbl :=
+  match cur with
+  | [] => []
+  | t :: ts => if t.uri == u then ts else t :: dropOne ts u
+
+def dropTables (cur : List Tbl) (rm : List Path) : List Tbl := rm.foldl dropOne cur
+
 def allFresh (used : List Path) : List Path → Bool
   | [] => true
   | p :: ps => !used.contains p && allFresh (p :: used) ps
@@ -329,7 +338,7 @@ def step (s : State) : Act → Option State
     | none => none
     | some x =>
       if x.life = .alive ∧ allFresh s.used (uris add) ∧ rm.all (fun u => (uris x.current).contains u) then
-        some { setInst s i { x with current := x.current.filter (fun t => !rm.contains t.uri) ++ add,
+        some { setInst s i { x with current := dropTables x.current rm ++ add,
                                      created := uris add ++ x.created, made := uris add ++ x.made } with
                files := (uris add).map File.sst ++ s.files, used := uris add ++ s.used }
       else none
